@@ -3,6 +3,9 @@
 
 import dill
 import multiprocessing
+from multiprocessing.reduction import ForkingPickler
+import pickle
+import traceback
 
 
 def _run_dill_encoded(payload):
@@ -10,6 +13,42 @@ def _run_dill_encoded(payload):
     res = fun(args, **kwargs)
     res = dill.dumps(res)
     return res
+
+
+class _RemoteTraceback(Exception):
+    """
+    Carries the formatted traceback of an exception raised in a worker process, so that
+    it can be shown as the cause of the exception re-raised in the calling process.
+    """
+
+    def __init__(self, tb):
+        self.tb = tb
+
+    def __str__(self):
+        return self.tb
+
+
+class _TaskFailure:
+    """
+    Sent back through the result queue in place of a result when a task raised.
+
+    The original exception is kept if it survives being pickled and unpickled (which is
+    how it has to travel through the queue), otherwise it is replaced by a RuntimeError
+    carrying its type and message. An object that cannot be pickled would be dropped
+    silently by the queue, and the calling process would wait forever for it.
+    """
+
+    def __init__(self, error):
+        self.tb = "".join(
+            traceback.format_exception(type(error), error, error.__traceback__)
+        )
+        try:
+            pickle.loads(ForkingPickler.dumps(error))
+            self.error = error
+        except BaseException:
+            self.error = RuntimeError(
+                f"{type(error).__name__} raised in worker process: {error}"
+            )
 
 
 class ParallelMap:
@@ -38,6 +77,10 @@ class ParallelMap:
                 multiprocessing.Process(
                     target=ParallelMap.worker_run,
                     args=(self.task_queue, self.result_queue, equilibrium),
+                    # daemon so that the workers cannot keep the interpreter from
+                    # exiting if this object has not been deleted by then, e.g. when
+                    # exiting because of an exception
+                    daemon=True,
                 )
                 for i in range(np)
             ]
@@ -69,9 +112,16 @@ class ParallelMap:
         f_Z = equilibrium.f_Z
         while True:
             i, function, args, kwargs = task_queue.get()
-            result = function(
-                *args, equilibrium=equilibrium, psi=psi, f_R=f_R, f_Z=f_Z, **kwargs
-            )
+            try:
+                result = function(
+                    *args, equilibrium=equilibrium, psi=psi, f_R=f_R, f_Z=f_Z, **kwargs
+                )
+            except (KeyboardInterrupt, SystemExit):
+                raise
+            except BaseException as error:
+                # BaseException so that func_timeout.FunctionTimedOut is included. The
+                # worker must always reply, otherwise __call__() would block forever.
+                result = _TaskFailure(error)
             result_queue.put((i, result))
 
     def __call__(self, function, args_list, **kwargs):
@@ -103,5 +153,14 @@ class ParallelMap:
             raise ValueError("Some tasks not finished")
         if not self.result_queue.empty():
             raise ValueError("Some results not handled")
+
+        # All results have been collected, so the queues are empty and this ParallelMap
+        # can be used again. If any tasks failed, raise the error from the first one in
+        # the list, which is the one that a serial loop would have raised.
+        for this_result in result:
+            if isinstance(this_result, _TaskFailure):
+                error = this_result.error
+                error.__cause__ = _RemoteTraceback(this_result.tb)
+                raise error
 
         return result
